@@ -97,6 +97,79 @@ def projection_case(case, st):
     st.extra["cegar_iterations"] = st.extra.get("cegar_iterations", 0) + q.rs.cegar_iterations
 
 
+def grown_case(case, st):
+    """ONE Graph object serves several calls; edges are added with add_edge between the calls
+    (case['stages'] = increasing edge counts).  After each stage all 2^n patterns are decided against
+    the graph as it is at that moment, so anything the Graph object remembers from an earlier use shows."""
+    from cspuz import Solver, graph
+
+    n = case["n"]
+    edges = [tuple(e) for e in case["edges"]]
+    g = graph.Graph(n)
+    k = 0
+    for si, end in enumerate(case["stages"]):
+        for u, v in edges[k:end]:
+            g.add_edge(u, v)
+        k = end
+        cur = edges[:k]
+        s = Solver()
+        arr = s.bool_array(n)
+        try:
+            graph.active_vertices_connected(s, arr, g, acyclic=case["acyclic"], use_graph_primitive=case["native"])
+        except Exception as e:
+            st.fail(Failure("posting-raises|grown|%s|%s" % (tag(case), repo_frame_sig(e)), observed=str(e)[:150]),
+                    case, "c04.grown")
+            return
+        q = encq.Query(s)
+        ids = [v.id for v in arr]
+        for pat in graphref.patterns(n):
+            want = reference(n, cur, pat, case["acyclic"])
+            got = q.admits(ids, pat)
+            nt = si >= 1 and sum(pat) >= 2
+            sub = dict(case, pattern=[int(x) for x in pat], stage=si)
+            st.case(nontrivial=nt, counted=True, classes=["grown", "grown-stage>=1" if si else "grown-stage0"],
+                    sample=sub if nt else None)
+            if got != want:
+                sig = ("admits-%s|" % ("non-tree" if case["acyclic"] else "disconnected") if got
+                       else "rejects-%s|" % ("tree" if case["acyclic"] else "connected")) + "grown|" + tag(case)
+                st.fail(Failure(sig, observed=got, expected=want), sub, "c04.grown")
+                return
+
+
+def shard_grown(arg):
+    seed, n_graphs = arg
+    st = Stats()
+    from hypothesis import strategies as hs
+
+    @hs.composite
+    def c(draw):
+        acyclic = draw(hs.booleans())
+        g = draw(graph_strategy(6, not acyclic and draw(hs.booleans())))
+        m = len(g["edges"])
+        if acyclic:
+            seen, es = set(), []
+            for e in g["edges"]:
+                if tuple(sorted(e)) not in seen:
+                    seen.add(tuple(sorted(e)))
+                    es.append(e)
+            g = dict(g, edges=es)
+            m = len(es)
+        cuts = sorted(set(draw(hs.lists(hs.integers(0, m), min_size=1, max_size=3)))) if m else []
+        stages = [x for x in cuts if x < m] + [m]
+        return dict(g, acyclic=acyclic, native=draw(hs.booleans()), stages=stages)
+
+    def body(case):
+        st2 = Stats()
+        grown_case(case, st2)
+        st.merge_counts(st2)
+        if st2.failures:
+            sig, d = sorted(st2.failures.items())[0]
+            raise Failure(sig, observed=d["observed"], expected=d["expected"], detail=d["case"])
+
+    hyp_search(st, c(), body, seed=seed, max_examples=n_graphs, check="c04.grown")
+    return st
+
+
 FORMS = ["pinned", "negated", "expr", "const", "array1d", "mixed"]
 
 
@@ -380,7 +453,10 @@ def run(ctx):
     wshapes = [(3, 4), (4, 4), (3, 6), (5, 5), (4, 6), (5, 6), (2, 9), (6, 6)]
     for r in pmap(shard_winding, [(ctx.seed * 1000 + 80 + i, [sh], 30 if quick else 400) for i, sh in enumerate(wshapes)]):
         ctx.stats.merge(r)
+    for r in pmap(shard_grown, [(ctx.seed * 1000 + 90 + i, 15 if quick else 150) for i in range(8 if quick else 16)]):
+        ctx.stats.merge(r)
     cl = ctx.stats.classes
+    ctx.floor("patterns on a Graph object that grew after an earlier use", cl["grown-stage>=1"], 1000)
     ctx.floor("winding patterns that are valid", cl["winding:valid"], 60)
     ctx.floor("winding patterns that are invalid", cl["winding:invalid"], 30)
     tot = max(1, cl["projection"])
@@ -397,6 +473,16 @@ def replay(ctx, rep):
         return
     if rep.get("check") == "c04.winding":
         winding_case(case)
+        return
+    if rep.get("check") == "c04.grown":
+        st = Stats()
+        c = dict(case)
+        c.pop("pattern", None)
+        c.pop("stage", None)
+        grown_case(c, st)
+        if st.failures:
+            sig, d = sorted(st.failures.items())[0]
+            raise Failure(sig, observed=d["observed"], expected=d["expected"])
         return
     st = Stats()
     c = dict(case)
